@@ -16,21 +16,9 @@ type Item struct {
 	Strat  int
 	Tags   []string // static partition tags of the program
 	Exec   explore.Exec
-	Seq    func() *SeqResult // sequential enumeration item (no scheduler search)
 	Sample string
+	Chunk  *SeqChunk   // sequential enumeration item (no scheduler search)
 	Cfg    mcrt.Config // MaxSteps/FairAfter overrides (zero = defaults)
-}
-
-// SeqResult is what a sequential (input/history enumeration) item reports.
-type SeqResult struct {
-	Cases       int64
-	Nontrivial  int64
-	States      int64
-	Transitions int64
-	Pristine    int64 // cases also validated against the unmodified package
-	Samples     []string
-	Found       []SeqFound
-	Exhaustive  bool
 }
 
 type SeqFound struct {
@@ -130,3 +118,13 @@ func specItems(prop string, sp *Spec, bound int, strats []int, tags []string, or
 }
 
 var allStrats = []int{mcrt.StratFIFO, mcrt.StratOldest, mcrt.StratNewest}
+
+// seqItems turns a sequential family's chunks into work items.
+func seqItems(prop, tier string) []Item {
+	var items []Item
+	for _, c := range SeqFamilies[prop](tier) {
+		c := c
+		items = append(items, Item{Name: c.Name, Chunk: &c, Sample: c.Name})
+	}
+	return items
+}
